@@ -90,6 +90,7 @@ class Live(object):
         self.sv_radius = None     # declared state of the SasView-style object
         self.sv_pd = False
         self.svps = None
+        self.svarr = None
         self.dm = None
 
     def model(self, name):
@@ -317,6 +318,26 @@ def _ops():
         pq, sq = L.svps.calc_composition_models(np.array(Q1))
         return "svps", (v1, pq, sq), []
 
+    def sv_array(L):
+        # a tabulated distribution supplied by the caller (weights deliberately not normalised): the caller's two
+        # arrays are inputs like any other and every repetition of the request must return the same bits
+        from sasmodels.sasview_model import _make_standard_model
+        from sasmodels.weights import ArrayDispersion
+        if L.svarr is None:
+            m = _make_standard_model("sphere")()
+            values, wts = np.array([31.0, 40.0, 52.0, 60.5, 77.0]), np.array([0.7, 3.0, 2.2, 1.1, 0.3])
+            disp = ArrayDispersion()
+            disp.set_weights(values, wts)
+            m.set_dispersion("radius", disp)
+            L.svarr = (m, values, wts, values.copy(), wts.copy())
+        m, values, wts, v0, w0 = L.svarr
+        v = m.evalDistribution(np.array(Q1))
+        ch = []
+        if values.tobytes() != v0.tobytes() or wts.tobytes() != w0.tobytes():
+            ch.append("evaluating a model with a tabulated distribution rewrote the caller's arrays: values %s -> %s, "
+                      "weights %s -> %s" % (v0, values, w0, wts))
+        return "svarr", v, ch
+
     def release(L):
         # API protocol: kernels made before release() are dead
         for name, m in list(L.models.items()):
@@ -350,14 +371,14 @@ def _ops():
         ("mix", generic("sphere+cylinder", "q1", "mix")),
         ("direct", direct), ("iq_fn", iq_fn),
         ("sv_set", sv_set), ("sv_pd", sv_pd), ("sv_eval", sv_eval), ("sv_clone", sv_clone_eval), ("sv_clone_mut", sv_clone_mut), ("sv_2d", sv_2d),
-        ("svps", svps_comp),
+        ("sv_array", sv_array), ("svps", svps_comp),
         ("release", release), ("reload", reload),
     ]
     return ops
 
 
 QUICK_OPS = ["mk_q2", "sph_monoflag", "sph_disp", "sph_zero", "sph2d_mag", "sph2d_mono", "sph_fq", "cyl_fq", "cyl_mesh", "cyl_ngauss", "py_nv", "py_2",
-             "prod", "mix", "direct", "sv_set", "sv_eval", "sv_clone_mut", "svps", "release", "reload"]
+             "prod", "mix", "direct", "sv_set", "sv_eval", "sv_clone_mut", "sv_array", "svps", "release", "reload"]
 
 
 def _op_table(ctx_quick):
